@@ -17,7 +17,7 @@ RULE = ('Fault sequences: histories on both classes and both modes (edge_removal
 ASSUMPTIONS = ['e > t', 'in accumulative mode the statement fixes no acceptance rule: whichever way the library answers '
                'a call on an existing pair is followed, and a ValueError must leave no trace']
 TECHNIQUE = 'fault-sequence PBT: generated rejected calls inside histories, before/after observation equality and model-prefix agreement'
-BUDGET = {'quick': {'cases': 16000, 'seconds': 45}, 'thorough': {'cases': 250000, 'seconds': 540}}
+BUDGET = {'quick': {'cases': 16000, 'seconds': 45}, 'thorough': {'cases': 500000, 'seconds': 540}}
 KINDS = ['add', 'add', 'add', 'add_from', 'path', 'star', 'cycle', 'node', 'reject', 'reject', 'reject', 'missing_t']
 
 
